@@ -208,7 +208,8 @@ def main():
                'optimizer': cfg['optimizer'], 'config': cfg, 'observed': v.get('observed'), 'expected': v.get('expected'),
                'n_configs_failing': len(lst), 'other_optimizers': sorted({c['optimizer'] for c, _ in lst}),
                'draw_scripts': sorted({c['draws'] for c, _ in lst}), 'objectives': sorted({c['objective'] for c, _ in lst}),
-               'boxes': sorted({str(c.get('box')) for c, _ in lst})}
+               'boxes': sorted({str(c.get('box')) for c, _ in lst}),
+               'from_witnesses': sorted({tuple(c['witness_of']) for c, _ in lst if c.get('witness_of')})}
         records.append(rec)
     cov['shrink_runs'] = n_shrink
     cov['wall_s'] = round(time.time() - t0, 1)
